@@ -31,8 +31,12 @@ package internal
 //@   loop 4 invariant (len(kvs) == 0 || add.arr != kvs.arr) && forall(j, 0, len(kvs), kvs[j].Key == old(kvs[j].Key) && kvs[j].Val == old(kvs[j].Val))
 //@   loop 3 iteration-ensures [vanished-or-changed-announced-deleted] (len(remove) == at_head(len(remove)) + 1) == (!has(m, k) || m[k] != v) && (len(remove) == at_head(len(remove)) || len(remove) == at_head(len(remove)) + 1) && (len(remove) == at_head(len(remove)) + 1 ==> remove[at_head(len(remove))].Key == k && remove[at_head(len(remove))].Val == v)
 //@   loop 4 iteration-ensures [new-or-changed-announced-added] (len(add) == at_head(len(add)) + 1) == (!has(vals, k) || vals[k] != v) && (len(add) == at_head(len(add)) || len(add) == at_head(len(add)) + 1) && (len(add) == at_head(len(add)) + 1 ==> add[at_head(len(add))].Key == k && add[at_head(len(add))].Val == v)
-//@   loop 6 iteration-ensures [every-listener-told-of-the-addition] calls(l.OnAdd, kv) == 1 && calls(OnAdd) == 1
-//@   loop 8 iteration-ensures [every-listener-told-of-the-deletion] calls(l.OnDelete, kv) == 1 && calls(OnDelete) == 1
+//@   loop 8 iteration-ensures [every-listener-told-of-the-addition] calls(l.OnAdd, kv) == 1 && calls(OnAdd) == 1
+//@   loop 6 iteration-ensures [every-listener-told-of-the-deletion] calls(l.OnDelete, kv) == 1 && calls(OnDelete) == 1
+// deletions are announced before additions: a key that came back with another value while the watch was down is
+// announced as deleted (old value) and added (new value), and a listener identifies a deletion by its key - told
+// in the other order it would drop the NEW value and keep the dead one
+//@   ensures [deletions-announced-before-additions] before(OnDelete, OnAdd)
 // the record is a map built during this call (so nothing of the previous record survives in it) ...
 //@   ensures [record-replaced] has(c.values, key) && c.values[key] != nil && fresh(c.values[key])
 // ... and it holds every key of the snapshot
